@@ -192,7 +192,7 @@ func runC05(c *Ctx) {
 			}
 		}
 	}
-	r.Floor("single-conversion", n, 20, "Location sinks in the tokenizer")
+	r.Floor("single-conversion", n, 12, "Location sinks in the tokenizer")
 	runC05Start(c, conv)
 	runC05Lookahead(c)
 	// one-based
@@ -595,7 +595,7 @@ func runC05Start(c *Ctx, conv map[*ssa.Function]bool) {
 			}
 		}
 	}
-	r.Floor("start-at-token", n, 2, "token Start stores with a cursor snapshot")
+	r.Floor("start-at-token", n, 1, "token Start stores with a cursor snapshot")
 }
 
 // ---- lookahead-restore ---------------------------------------------------------------------
